@@ -150,6 +150,13 @@ impl<'a> G15<'a> {
             // string-copy of a literal: a fresh mutable string
             self.emit(&format!("(define s{} (string-copy {}))", i, str_lit(&t)));
         }
+        // sometimes one string is long, with a length next to a power of two
+        if self.rng.chance(1, 6) {
+            const SIZES: [usize; 12] = [15, 16, 17, 31, 32, 33, 63, 64, 65, 127, 128, 129];
+            let k = SIZES[self.rng.usize(SIZES.len())];
+            let t: String = (0..k).map(|_| self.rand_char()).collect();
+            self.emit(&format!("(define s4 (string-copy {}))", str_lit(&t)));
+        }
         self.emit("(define h0 (list s0 s1 'x))");
         self.emit("(define h1 (vector s2 s0 42))");
         self.dump();
@@ -341,8 +348,10 @@ impl<'a> G15<'a> {
                     12 => self.rng.range(0xD700, 0xE100),
                     _ => self.rng.range(0, 0x11FFFF),
                 };
-                if self.rng.chance(1, 10) {
-                    ("(integer->char 9223372036854775808)".to_string(), "integer->char")
+                if self.rng.chance(1, 5) {
+                    // beyond 32 and 64 bits: values whose low 32 bits are a valid scalar value
+                    let big = *self.rng.pick(&["9223372036854775808", "4294967361", "30064771072", "-4294967231", "4294967296", "18446744073709551681", "-1114112"]);
+                    (format!("(integer->char {})", big), "integer->char")
                 } else {
                     (format!("(integer->char {})", n), "integer->char")
                 }
